@@ -258,9 +258,10 @@ def mode_of(steps):
         body, tail = steps[:-1], steps[-1:]
     (mode, lim), body2 = c01.plan_mode(body)
     if mode == "sub" or len(body2) < len(body):
-        # an undetermined LIMIT: which rows survive is engine-defined; compare lengths (and sub-bags when no DISTINCT)
-        cm = "CLen" if any(s[0] == "distinct" for s in body2) else "CBag"
-        return cm, body2 + tail
+        # an undetermined LIMIT (no total order below it, e.g. orderBy on a key with ties): WHICH rows survive is
+        # engine-defined -- DuckDB, Spark and the model may each pick differently, also between LIMIT n and LIMIT m of
+        # the same query -- so only the sizes are compared (C01 judges the rows of such programs in its sub-bag mode)
+        return "CLen", body2 + tail
     return ("CSeq" if mode == "seq" else "CBag"), body2 + tail
 
 
